@@ -148,7 +148,7 @@ def rule_roles(ctx: Ctx, functions: tuple[str, ...] = ('step', 'load_state_dict'
     p = ctx.prog
     p.family = None
     ctx.rule('E8-ROLES', 'for every consistent (role, configuration) valuation the layer calls of step() / load_state_dict() succeed with the slots the role holds; '
-                         'after an inverse step exactly the gradient workers hold second-order data; after the gradient phase every rank holds a gradient to write back', floor=40)
+                         'after an inverse step exactly the gradient workers hold second-order data; after the gradient phase every rank holds a gradient to write back', floor=96)
     rs = roles()
     ctx.extra['role_valuations'] = len(rs)
     traces = []
